@@ -375,7 +375,7 @@ def write_evidence(mod, tier, seed, cov, wall, violations, extra_assumptions=(),
         "violations": violations,
     }
     path = os.path.join(VERIF, sub, f"{mod.PID}.json")
-    tmp = path + ".tmp"
+    tmp = path + f".{os.getpid()}.tmp"  # (unique per process: two runs of one check must not collide)
     with open(tmp, "w") as f:
         json.dump(ev, f, indent=1, sort_keys=True, default=repr)
     os.replace(tmp, path)
